@@ -155,6 +155,18 @@ CHECKS["C02"] = ("exploration",
     "fc_enable_max 1/2) and a full notification socket.",
     "relative speeds are OS-scheduled plus seeded delays; asan server; abstract sockets only", "DESIGN.md C02")
 
+CHECKS["C04"] = ("exploration",
+    "online per-connection lifecycle automaton on the server callbacks + application reference ledger + ASan, over "
+    "random lifecycle histories driven by real client processes",
+    "The server process (ASan) takes random actions inside every callback and from timers - refuse, disconnect, "
+    "send, extra references released later, closed retries, rate-limit changes, list iteration, service destruction "
+    "with live connections - while clients connect, talk, disconnect, exit or are killed. Every callback is checked "
+    "by an automaton (accept [created msg* closed(!=0)* closed(0)]? destroyed, destroyed exactly once and never "
+    "while the application holds a reference, nothing afterwards), all accepted connections must end destroyed, and "
+    "ASan reports any touch of freed connection or service memory.",
+    "a disconnect from inside connection_created may legitimately end without closed (documented in DESIGN.md)",
+    "DESIGN.md C04")
+
 REASON_PENDING = "check not registered yet in this revision (implementation in progress, see DESIGN.md section 7)"
 
 
